@@ -9,7 +9,7 @@
    consumed (POSTCONDITION AllConsumed); each event's verdict (ok / skip / a
    diagnosis) goes to the verdict file, so that one rejected event never hides
    the rest of the trace. *)
-EXTENDS SemOverflow, AsCodedOverflow, SemScaled, SemRounding, AsCodedRounding, SemElastic, SemBits, SemSqrt, SemFraction, TLC, TLCExt, Json, IOUtils, CSV
+EXTENDS SemOverflow, AsCodedOverflow, SemScaled, SemRounding, AsCodedRounding, SemElastic, SemBits, SemSqrt, SemFraction, SemWide, TLC, TLCExt, Json, IOUtils, CSV
 
 Tr == ndJsonDeserialize(IOEnv.TRACE)
 Insts == ndJsonDeserialize(IOEnv.INSTS)
@@ -42,6 +42,16 @@ Verdict0(e, i) ==
       [] e.e = "FrHash" -> JudgeFrHash(e, i)
       [] e.e = "FrFloat" -> JudgeFrFloat(e, i)
       [] e.e = "FrFromFloat" -> JudgeFrFromFloat(e, i)
+      [] e.e = "WBin" -> JudgeWBin(e, i)
+      [] e.e = "WUn" -> JudgeWUn(e, i)
+      [] e.e = "WShift" -> JudgeWShift(e, i)
+      [] e.e = "WCmp" -> JudgeWCmp(e, i)
+      [] e.e = "WConvInt" -> JudgeWConvInt(e, i)
+      [] e.e = "WFromInt" -> JudgeWFromInt(e, i)
+      [] e.e = "WToFloat" -> JudgeWToFloat(e, i)
+      [] e.e = "WFromFloat" -> JudgeWFromFloat(e, i)
+      [] e.e = "WLimits" -> JudgeWLimits(e, i)
+      [] e.e = "WText" -> JudgeWText(e, i)
       [] e.e = "RDiv" -> JudgeRDiv(e, i)
       [] e.e = "ROp" -> JudgeROp(e, i)
       [] e.e = "RConv" -> JudgeRConv(e, i)
